@@ -15,6 +15,7 @@
 package circuitbreaker
 
 import (
+	"math"
 	"reflect"
 	"sync/atomic"
 
@@ -690,8 +691,10 @@ func newErrorCountCircuitBreakerWithStat(r *Rule, stat *errorCounterLeapArray) *
 			state:                newState(),
 			probeNumber:          r.ProbeNum,
 		},
-		minRequestAmount:    r.MinRequestAmount,
-		errorCountThreshold: uint64(r.Threshold),
+		minRequestAmount: r.MinRequestAmount,
+		// an integer count reaches a fractional threshold at the next integer (truncating 0.5 to 0 would
+		// open the breaker on the first completion, even a successful one)
+		errorCountThreshold: uint64(math.Ceil(r.Threshold)),
 		stat:                stat,
 	}
 }
